@@ -317,6 +317,14 @@ def run_tasks(params, ch):
 
 
 def parts(tier):
+    out = _parts(tier)
+    if tier == 'thorough':
+        for p in out:
+            p.deadline_s = 2400
+    return out
+
+
+def _parts(tier):
     two = [k for k, v in SCENARIOS.items() if len(v) == 2]
     three = [k for k, v in SCENARIOS.items() if len(v) == 3]
     pb = 2 if tier == 'quick' else 3
